@@ -1,5 +1,8 @@
 import PV.Model.Grouping
 import PV.Properties.C11
+import PV.Generated.GroupReportFacts
+import PV.Generated.GroupDetectorFacts
+import PV.Properties.GroupFactsExpected
 import Mathlib.Data.List.Nodup
 import Mathlib.Data.List.Perm.Subperm
 import Mathlib.Data.List.Pairwise
@@ -78,6 +81,43 @@ theorem C10_connected (n θ : Nat) (ps : List Pair) (gs : List (List Nat)) (h : 
   intro u v hu hv hne
   rw [C11_spec _ gs h u v hu hv hne, reach_iff_conn, reach_iff_conn]
   exact ⟨fun h => h.1, fun h => ⟨h, h.symm⟩⟩
+
+/-- connected mode always returns (the certified closure of the SCC model never runs out of fuel, `C11_total`) -/
+theorem C10_connected_total (n θ : Nat) (ps : List Pair) : ∃ gs, connectedGroups n θ ps = some gs :=
+  (C11_total _).1
+
+/-- the report: the request filter `keep` (similarity range, enabled clone types) decides which pairs are
+reported, and the groups are formed from exactly those pairs (service/clone_service.go after the F20 repair) -/
+def reportGroups (n θ : Nat) (keep : Pair → Bool) (ps : List Pair) : Option (List (List Nat)) :=
+  connectedGroups n θ (ps.filter keep)
+
+/-- **C10 (report level).** In the report two different fragments share a group iff they are connected
+through *reported* pairs at or above the grouping threshold — a pair the request filters out links nothing. -/
+theorem C10_report (n θ : Nat) (keep : Pair → Bool) (ps : List Pair) (gs : List (List Nat))
+    (h : reportGroups n θ keep ps = some gs) :
+    (∀ u v, u < n → v < n → u ≠ v → ((∃ g ∈ gs, u ∈ g ∧ v ∈ g) ↔ Conn θ (ps.filter keep) u v)) ∧
+    (∀ g ∈ gs, 2 ≤ g.length ∧ g.Nodup) ∧
+    (∀ g₁ ∈ gs, ∀ g₂ ∈ gs, ∀ x, x ∈ g₁ → x ∈ g₂ → g₁ = g₂) :=
+  let hc := C10_connected n θ (ps.filter keep) gs h
+  ⟨hc.1, hc.2.2.1, hc.2.2.2⟩
+
+/-- why the order of filtering and grouping matters (finding F20, the shape found on the pinned tree): two exact
+pairs {0,2} and {1,3} and two Type-3 cross pairs at 74 %; with Type-3 filtered out of the report, grouping the
+*unfiltered* pairs still yields one group of four, grouping the reported pairs yields the two groups -/
+example :
+    let ps : List Pair := [⟨0, 2, 100⟩, ⟨1, 3, 100⟩, ⟨0, 3, 74⟩, ⟨1, 2, 74⟩]
+    connectedGroups 4 65 ps = some [[0, 1, 2, 3]] ∧ reportGroups 4 65 (fun p => decide (75 ≤ p.sim)) ps = some [[0, 2], [1, 3]] := by
+  decide
+
+/-- **Tie (regenerated).** The service filters the detector's pairs by the request, then groups exactly the kept pairs with the
+configured strategy (the shape `reportGroups` models); the later per-group filter can only drop whole groups. -/
+theorem C10_facts :
+    Generated.GroupReportFacts.DetectClonesInFiles = GroupFactsExpected.GroupReportFacts_DetectClonesInFiles ∧
+    Generated.GroupReportFacts.filterDetectedPairs = GroupFactsExpected.GroupReportFacts_filterDetectedPairs ∧
+    Generated.GroupDetectorFacts.GroupClonePairs = GroupFactsExpected.GroupDetectorFacts_GroupClonePairs ∧
+    Generated.GroupDetectorFacts.configuredGroupingStrategy = GroupFactsExpected.GroupDetectorFacts_configuredGroupingStrategy ∧
+    Generated.GroupDetectorFacts.groupClonesWithStrategy = GroupFactsExpected.GroupDetectorFacts_groupClonesWithStrategy :=
+  ⟨rfl, rfl, rfl, rfl, rfl⟩
 
 /-! ## k-core -/
 
